@@ -60,14 +60,16 @@ static void run_case(const JVal& in) {
         std::vector<embedded_pairing_bls12_381_prepared_pair_t> pps;
         for (size_t i = 0; i < n; i++) { U(es.a[i]["p"], ps[i]); U(es.a[i]["q"], qs[i]); }
         for (size_t i = 0; i < n; i++) {
+            // an entry may name the operand OBJECT of an earlier entry (same pointer in several pair records)
+            size_t pi = es.a[i].has("sharep") ? (size_t) es.a[i]["sharep"].i : i, qi = es.a[i].has("shareq") ? (size_t) es.a[i]["shareq"].i : i;
             if (es.a[i]["kind"].s == "affine") {
                 embedded_pairing_bls12_381_affine_pair_t ap; memset(&ap, 0xA5, sizeof ap);
-                ap.g1 = (embedded_pairing_bls12_381_g1affine_t*) &ps[i]; ap.g2 = (embedded_pairing_bls12_381_g2affine_t*) &qs[i];
+                ap.g1 = (embedded_pairing_bls12_381_g1affine_t*) &ps[pi]; ap.g2 = (embedded_pairing_bls12_381_g2affine_t*) &qs[qi];
                 aps.push_back(ap);
             } else {
                 prepare_other_kind(preps[i], qs[i]); preps[i].prepare(qs[i]);
                 embedded_pairing_bls12_381_prepared_pair_t pp; memset(&pp, 0xA5, sizeof pp);
-                pp.g1 = (embedded_pairing_bls12_381_g1affine_t*) &ps[i]; pp.g2 = (embedded_pairing_bls12_381_g2prepared_t*) &preps[i];
+                pp.g1 = (embedded_pairing_bls12_381_g1affine_t*) &ps[pi]; pp.g2 = (embedded_pairing_bls12_381_g2prepared_t*) &preps[i];
                 pps.push_back(pp);
             }
         }
